@@ -1,0 +1,42 @@
+//go:build verif
+
+// Verification hook (never built without -tags verif): exports calculateBeta and
+// pathSolution.Path for the differential checks in /verif (properties C22, C02).
+
+package combinator
+
+import (
+	"github.com/scionproto/scion/pkg/private/ctrl/path_mgmt/proto"
+	seg "github.com/scionproto/scion/pkg/segment"
+)
+
+// VerifNetEdge describes one solution edge: a segment used as up, core or down segment, the
+// AS-entry index where its forwarding portion ends (up/core) or starts (down), and the peer
+// entry index + 1 at that AS entry (0 = no peering).
+type VerifNetEdge struct {
+	Segment  *seg.PathSegment
+	Type     proto.PathSegType
+	Shortcut int
+	Peer     int
+}
+
+func (e VerifNetEdge) solutionEdge() *solutionEdge {
+	return &solutionEdge{
+		edge:    &edge{Shortcut: e.Shortcut, Peer: e.Peer},
+		segment: &inputSegment{PathSegment: e.Segment, Type: e.Type},
+	}
+}
+
+// VerifNetCalculateBeta is calculateBeta for the given edge.
+func VerifNetCalculateBeta(e VerifNetEdge) uint16 {
+	return calculateBeta(e.solutionEdge())
+}
+
+// VerifNetPathOf is pathSolution.Path for the given list of edges (forwarding order).
+func VerifNetPathOf(edges []VerifNetEdge) Path {
+	sol := &pathSolution{}
+	for _, e := range edges {
+		sol.edges = append(sol.edges, e.solutionEdge())
+	}
+	return sol.Path(newHashState())
+}
